@@ -24,7 +24,7 @@ checks = {
  "C11": dict(cat="exploration", tech="runtime monitoring: snapshot pairing oracle (distinct bytes per upload) + walk from snapshot to latest after every AddVersion/AddSnapshot", ref="DESIGN.md §7 C11",
    text="After every AddVersion/AddSnapshot the snapshot is fetched: it must be the previously returned pair or exactly the pair just uploaded, never a mix or a stale one, and the walk from its id must reach the latest without gone. Concurrent part: all E2 scenarios containing AddSnapshot on an existing chain under the controlled scheduler with the differential linearizability oracle."),
  "C12": dict(cat="exploration", tech="runtime monitoring: exact-arithmetic urgency oracle and versions-since counter monitor over real histories", ref="DESIGN.md §7 C12",
-   text="For real histories on both backends (incl. reopen) the stored versions-since counter must equal the number of versions accepted since the snapshot was stored and each accepted AddVersion's urgency must equal the wide-integer specification for (targets, age, since)."),
+   text="For real histories on both backends (incl. reopen) the stored versions-since counter must equal the number of versions accepted since the snapshot was stored and each accepted AddVersion's urgency must equal the wide-integer specification for (targets, age, since); planted threshold sweeps for generated configurations run on both backends, both entries and against the real executable configured on its command line."),
  "C13": dict(cat="exploration", tech="runtime monitoring: lock-step differential execution (in-memory vs SQLite vs SQLite reopened at 10/50/100% of gaps)", ref="DESIGN.md §7 C13",
    text="Identical symbolic histories run on in-memory, SQLite and SQLite reopened at random gaps; responses (abstracted by id role) and the client record after every operation must agree within the same entry point."),
  "C14": dict(cat="exploration", tech="runtime monitoring: HTTP decode-table oracle against a library twin + same-storage id/body cross-check", ref="DESIGN.md §7 C14",
@@ -45,7 +45,7 @@ checks.update({
 })
 checks.update({
  "C03": dict(cat="exploration", tech="runtime monitoring: controlled scheduler at the Storage-trait boundary (DFS over transaction orders + real-lock probes) with a differential linearizability oracle", ref="DESIGN.md §6 E2, §7 C03",
-   text="2-3 worker threads run real requests (library and HTTP handlers) against one shared storage (in-memory, one SQLite object, one SQLite object per worker on one directory) under a controller that grants one worker at a time at every storage call, transaction begin and request invoke/return. All begin orders exclusive locking permits are enumerated per scenario (capped in quick), plus randomly scheduled executions that begin a transaction while another is open so the backend's own lock/busy handler is exercised. An execution is accepted iff some real-time-respecting one-at-a-time order of the same requests, executed by the same code on a fresh storage, gives the same responses and final state; any server error under overlap is a violation. One recorded finding (two-step client creation observable through AddSnapshot) is matched by signature and printed as KNOWN-FINDING.",
+   text="2-3 worker threads run real requests (library and HTTP handlers) against one shared storage (in-memory, one SQLite object, one SQLite object per worker on one directory) under a controller that grants one worker at a time at every storage call, transaction begin and request invoke/return. All begin orders exclusive locking permits are enumerated per scenario (capped in quick), plus sampled schedules: one-preemption schedules (a worker set aside after k steps while the others run to completion) and random ones that begin a transaction while another is open so the backend's own lock/busy handler is exercised; a worker that waits for anything a suspended worker holds is detected by a timer and scheduled around. An execution is accepted iff some real-time-respecting one-at-a-time order of the same requests, executed by the same code on a fresh storage, gives the same responses and final state; any server error under overlap is a violation. One recorded finding (two-step client creation observable through AddSnapshot) is matched by signature and printed as KNOWN-FINDING.",
    note="Bounded: 2-3 requests, yield points at storage-call granularity; interleavings inside SQLite and between processes are left to the stress tier. The sequential reference is the code itself (differential), so a purely sequential defect is not attributed to C03."),
 })
 checks.update({
